@@ -162,6 +162,12 @@ def worker_main(argv):
 
     faulthandler.enable()
     die_with_parent()
+    cov = None
+    if os.environ.get("VF_COVERAGE"):
+        # diagnostic only (tools/coverage_report.py): which fortls lines does this check's workload reach at all?
+        import coverage
+        cov = coverage.Coverage(data_file=f"{os.environ['VF_COVERAGE']}.{prop}.{shard}.{os.getpid()}", source=[os.path.join(REPO, "fortls")], branch=True)
+        cov.start()
     mod = load_prop(prop)
     ctx = Ctx(prop, tier, seed, shard, nshards)
     ctx.markfile = out + ".mark"
@@ -187,6 +193,9 @@ def worker_main(argv):
         faulthandler.cancel_dump_traceback_later()
         res.count("cpu_ms", int((time.process_time() - t0) * 1000))
         fh.write(f"E {i} " + json.dumps(res.to_json(), default=str) + "\n")
+    if cov is not None:
+        cov.stop()
+        cov.save()
     fh.write("D\n")
     fh.close()
 
